@@ -249,6 +249,8 @@ def long_variable_stratum(ctx, ws, n):
         size = B + rng.randint(50, 1500)
         body = L.gen_listing(rng, 40, mnems=["mov", "add", "push", "pop", "lea", "cmp", "xor"], start=0x401000)
         before, after = rng.randint(1, 6), rng.randint(1, 6)       # cli instructions before / after index B
+        if (ctx.shard + i * ctx.nshards) % 4 == 3:
+            before, after = rng.randint(60, 200), rng.randint(60, 200)      # one hit of several hundred instructions (a long matched text)
         start = B - before - 1                                      # index of the hlt
         run = before + after
         insts, addr, k = [], 0x401000, 0
@@ -265,8 +267,10 @@ def long_variable_stratum(ctx, ws, n):
             addr += src.nbytes
         lp = ws.write("longv.s", L.render(insts, rng, labels=False))
         kind = rng.choice(["times", "times", "not-and", "times-exact-max"])
+        if before > 50:
+            kind = "times"
         if kind == "times":
-            pat = ["hlt", {"cli": {"times": {"min": 1, "max": 40}}}]
+            pat = ["hlt", {"cli": {"times": {"min": 1, "max": 40 if before <= 50 else 600}}}]
             want_records = 1 + run
         elif kind == "times-exact-max":
             pat = ["hlt", {"cli": {"times": {"min": 1, "max": run}}}, "sti"]
